@@ -10,6 +10,7 @@
 import json
 import logging
 import os
+import re
 import gffutils
 import argparse
 import tempfile
@@ -183,6 +184,25 @@ def convert_db_to_gtf(args):
     return gtf_filename
 
 
+# a token of the attribute column: characters other than blanks, or double-quoted text (which may hold blanks)
+QUOTE_AWARE_TOKEN = re.compile(r'(?:[^ "]|"[^"]*"?)+|(?<= )(?= )|^(?= )|(?<= )$')
+
+
+def attribute_value_position(attrs, key):
+    # index of the token that holds the value of attribute `key` (its last occurrence), -1 if there is none;
+    # the value is the next non-empty token, several blanks may separate it from the key
+    key_pos = -1
+    for i in range(len(attrs)):
+        if attrs[i] == key:
+            key_pos = i
+    if key_pos == -1:
+        return -1
+    value_pos = key_pos + 1
+    while value_pos < len(attrs) and attrs[value_pos] == "":
+        value_pos += 1
+    return value_pos if value_pos < len(attrs) else -1
+
+
 def check_gtf_duplicates(gtf):
     gtf_correct = True
     line_count = 0
@@ -229,19 +249,19 @@ def check_gtf_duplicates(gtf):
                 return check_gff3_duplicates(handle)
 
         attrs = attribute_column.split(" ")
-
-        gene_id_pos = -1
-        for i in range(len(attrs)):
-            if attrs[i] == 'gene_id':
-                gene_id_pos = i
-        if gene_id_pos in [-1, len(attrs) - 1]:
+        gene_id_pos = attribute_value_position(attrs, 'gene_id')
+        if gene_id_pos != -1 and attrs[gene_id_pos].count('"') == 1:
+            # a quoted value holds a blank: cut the column at the blanks outside the quotes
+            attrs = QUOTE_AWARE_TOKEN.findall(attribute_column)
+            gene_id_pos = attribute_value_position(attrs, 'gene_id')
+        if gene_id_pos == -1:
             logger.warning("Malformed GTF line %d (gene_id attribute value cannot be found)" % line_count)
             logger.warning(l.strip())
             gtf_correct = False
             continue
 
         feature_type = v[2]
-        gene_str = attrs[gene_id_pos + 1]
+        gene_str = attrs[gene_id_pos]
         start_pos = gene_str.find('"')
         end_pos = gene_str.rfind('"')
         gene_id = gene_str[start_pos+1:end_pos]
@@ -268,17 +288,18 @@ def check_gtf_duplicates(gtf):
         if seqids.index(v[0]) > 0:
             gene_id += ".%s" % v[0]
 
-        transcript_id_pos = -1
-        for i in range(len(attrs)):
-            if attrs[i] == 'transcript_id':
-                transcript_id_pos = i
-        if feature_type != "gene" and transcript_id_pos in [-1, len(attrs) - 1]:
+        transcript_id_pos = attribute_value_position(attrs, 'transcript_id')
+        if transcript_id_pos != -1 and attrs[transcript_id_pos].count('"') == 1:
+            attrs = QUOTE_AWARE_TOKEN.findall(attribute_column)
+            gene_id_pos = attribute_value_position(attrs, 'gene_id')
+            transcript_id_pos = attribute_value_position(attrs, 'transcript_id')
+        if feature_type != "gene" and transcript_id_pos == -1:
             logger.warning("Malformed GTF line %d (transcript_id attribute value cannot be found)" % line_count)
             logger.warning(l.strip())
             gtf_correct = False
             continue
 
-        transcript_str = attrs[transcript_id_pos + 1]
+        transcript_str = attrs[transcript_id_pos] if transcript_id_pos != -1 else attrs[0]
         start_pos = transcript_str.find('"')
         end_pos = transcript_str.rfind('"')
         transcript_id = transcript_str[start_pos+1:end_pos]
@@ -335,9 +356,9 @@ def check_gtf_duplicates(gtf):
 
         new_attrs = []
         for i in range(len(attrs)):
-            if i == gene_id_pos + 1:
+            if i == gene_id_pos:
                 new_attrs.append('"%s";' % gene_id)
-            elif feature_type != "gene" and i == transcript_id_pos + 1:
+            elif feature_type != "gene" and i == transcript_id_pos:
                 new_attrs.append('"%s";' % transcript_id)
             else:
                 new_attrs.append(attrs[i])
